@@ -34,9 +34,13 @@ SPEC = {
     "id": "C09",
     "gens": ["FmtTables", "ParseTables"],
     "lean_modules": ["RsslVerif.Thm.C09"],
+    "level_note": "roundtrip_expr_partial: WF excludes LitOk-failing literals, assignment as middle operand of a conditional "
+                  "(negation proved: ternary_middle_assignment_breaks) and subscript/member/call nodes; casts, sizeof, template "
+                  "arguments, braced init, statements and declarators are reached by the correspondence run only",
     "theorems": [T + n for n in [
         "binToks_lexes", "unTok_lexes", "tables_agree", "assoc_agrees", "ternary_level", "unary_tables_agree",
-        "glue_prefix_prefix", "glue_postfix_next", "glue_needs_space"]],
+        "glue_prefix_prefix", "glue_postfix_next", "glue_needs_space", "paren_rule_matches_grammar",
+        "roundtrip_expr_partial", "roundtrip_subexpr_partial", "ternary_middle_assignment_breaks"]],
     "harness": "c09",
     "harness_args": harness_args,
     "nontrivial": nontrivial,
